@@ -7,6 +7,7 @@ package varmq
 // sizes); layer W goes through the worker with a recording wrapper.
 
 import (
+	"os"
 	"encoding/json"
 	"fmt"
 	"sort"
@@ -387,7 +388,44 @@ func init() {
 				pf.BatchPct = 0
 				pf.Ratio = []int{0, 50, 100}
 			}
-			return generate(r, pf)
+			huge := 0
+			hn := map[bool]int{false: 600, true: 300}[tier == "thorough"]
+			if os.Getenv("VERIF_BIGBATCH") != "" { // development aid: every episode
+				hn = 1
+			}
+			if r.Intn(hn) == 0 {
+				// one batch larger than any chunk/threshold constant (1024, 2048, 4096), then single
+				// submissions made after AddAll has returned: they must queue up behind the whole batch
+				huge = pick(r, []int{1030, 2060, 4100, 4200})
+				pf.WKinds = allW
+				pf.QKinds = []int{qkStd, qkPrio}
+				pf.Conc = []int{1, 1, 2}
+				pf.Producers, pf.Adds = [2]int{1, 1}, [2]int{2, 4}
+				pf.BatchPct, pf.GatedPct, pf.DelayPct = 0, 0, 0
+				pf.Cancellers, pf.Ctrl, pf.CtrlOps = [2]int{0, 0}, nil, [2]int{0, 0}
+				pf.Releaser = 0
+				pf.SmallChunksPct = 30
+			}
+			c, p := generate(r, pf)
+			if huge > 0 && len(p.Tasks) > 0 {
+				b := p.NBatches
+				p.NBatches++
+				var subs []int
+				for i := 0; i < huge; i++ {
+					n := len(p.Subs)
+					st := SubT{N: n, Q: 0, Batch: b}
+					if r.Chance(50) {
+						st.Prio = pick(r, []int{0, 0, 1, 2})
+					}
+					p.Subs = append(p.Subs, st)
+					subs = append(subs, n)
+				}
+				p.Tasks[0] = append([]Op{{K: opAddAll, Q: 0, A: b, Subs: subs}}, p.Tasks[0]...)
+				if m := 60000 + 6000*len(p.Subs); m > c.MaxSteps {
+					c.MaxSteps = m
+				}
+			}
+			return c, p
 		},
 		Judge:      judgeC04W,
 		NonTrivial: func(ep *Episode) bool { return countAccepted(ep) >= 2 },
@@ -450,6 +488,43 @@ func judgeC04W(j *judgeCtx) {
 		}
 	}
 	j.checkEntryOrder("C04.d")
+	// C04.g: real-time precedence — a submission whose call returned before another one was
+	// invoked reaches the queue first (all submissions on a FIFO queue, equal priorities on a
+	// priority queue; the items of an AddAll carry the call's interval)
+	{
+		type sb struct {
+			inv, ret, enq uint64
+			n, prio    int
+		}
+		var xs []sb
+		for _, s := range wd.subs {
+			if j.accepted(s) && s.Enq != 0 && s.AddInv != 0 && s.AddRet != 0 {
+				pr := 0
+				if prio {
+					pr = s.Prio
+				}
+				xs = append(xs, sb{s.AddInv, s.AddRet, s.Enq, s.N, pr})
+			}
+		}
+		byInv := append([]sb(nil), xs...)
+		sort.Slice(byInv, func(a, b int) bool { return byInv[a].inv < byInv[b].inv })
+		byRet := append([]sb(nil), xs...)
+		sort.Slice(byRet, func(a, b int) bool { return byRet[a].ret < byRet[b].ret })
+		maxEnq := map[int]sb{} // per priority class: the latest-enqueued submission among those already returned
+		k := 0
+		for _, b := range byInv {
+			for k < len(byRet) && byRet[k].ret < b.inv {
+				if m, ok := maxEnq[byRet[k].prio]; !ok || byRet[k].enq > m.enq {
+					maxEnq[byRet[k].prio] = byRet[k]
+				}
+				k++
+			}
+			if a, ok := maxEnq[b.prio]; ok && a.enq > b.enq {
+				j.add("C04.g", b.enq, "submission %d (call [%d,%d]) reached the queue at %d, before submission %d at %d whose call had returned at %d, before this one was invoked: real-time order of non-overlapping submissions is not respected", b.n, b.inv, b.ret, b.enq, a.n, a.enq, a.ret)
+				return
+			}
+		}
+	}
 	// C04.f: the items of one AddAll reach the queue in slice order — "accepted first"
 	// inside a batch is the item order (all items on a FIFO queue, equal priorities on a
 	// priority queue)
